@@ -66,6 +66,81 @@ fn is_internal(o: &Out) -> bool {
     matches!(&o.res, Err((k, _)) if k == "PANIC" || k == "InternalError")
 }
 
+/// BLS operators applied to 48-/96-byte atoms that look like compressed points but mostly are not
+/// (not on the curve, not in the subgroup, non-canonical infinity), and to valid points
+fn bls_point_program(rng: &mut Rng) -> (T, T) {
+    let g2 = rng.chance(1, 3);
+    let len = if g2 { 96 } else { 48 };
+    let mut mk = |rng: &mut Rng| -> T {
+        match rng.below(6) {
+            0 => {
+                // a valid point: (g1_multiply generator k) evaluated by the implementation
+                let mkpt = if g2 { call(57, vec![quote(T::Atom(rng.bytes(8)))]) } else { call(30, vec![quote(progs::random_int(rng))]) };
+                let o = run_full("chia", 0, 0, &mkpt, &T::nil(), "");
+                match o.res {
+                    Ok((_, h)) => quote(trees::from_hex(&h).unwrap()),
+                    Err(_) => quote(atom(&[])),
+                }
+            }
+            1 => {
+                let mut b = vec![0u8; len];
+                b[0] = 0xc0;
+                if rng.chance(1, 2) {
+                    b[len - 1] = 1; // non-canonical infinity
+                }
+                quote(T::Atom(b))
+            }
+            _ => {
+                let mut b = rng.bytes(len);
+                b[0] = (b[0] & 0x1f) | 0x80 | if rng.chance(1, 2) { 0x20 } else { 0 };
+                quote(T::Atom(b))
+            }
+        }
+    };
+    let x = mk(rng);
+    let y = mk(rng);
+    let prog = if g2 {
+        match rng.below(4) {
+            0 => call(55, vec![x]),
+            1 => call(52, vec![x, y]),
+            2 => call(54, vec![x, quote(progs::random_int(rng))]),
+            _ => call(53, vec![call(55, vec![x])]),
+        }
+    } else {
+        match rng.below(5) {
+            0 => call(51, vec![x]),
+            1 => call(29, vec![x, y]),
+            2 => call(49, vec![x, y]),
+            3 => call(50, vec![x, quote(progs::random_int(rng))]),
+            _ => call(13, vec![call(51, vec![x])]),
+        }
+    };
+    (prog, T::nil())
+}
+
+/// 4-byte operators around the secp256k1/secp256r1 opcodes (same cost multiplier, every value of the
+/// last byte's cost-function and padding bits) on valid and corrupted signature triples
+pub fn secp4_program(rng: &mut Rng) -> (T, T) {
+    let k1 = rng.chance(1, 2);
+    let (pkc, _pku, msg, mut sig) = crate::crypto::secp_valid(rng, k1);
+    if rng.chance(1, 5) {
+        let i = rng.below(sig.len() as u64) as usize;
+        sig[i] ^= 1 << rng.below(8);
+    }
+    let mut op = if k1 { vec![0x13, 0xd6, 0x1f, 0x00] } else { vec![0x1c, 0x3a, 0x8f, 0x00] };
+    match rng.below(6) {
+        0 => {}
+        1 => op[3] = rng.below(64) as u8,
+        2 => op[3] = 0x40 | rng.below(64) as u8,
+        3 => op[3] = 0x80 | rng.below(64) as u8,
+        4 => op[3] = 0xc0 | rng.below(64) as u8,
+        _ => op[2] ^= 1 << rng.below(8),
+    }
+    let prog = T::pair(T::Atom(op), T::list(vec![quote(T::Atom(pkc)), quote(T::Atom(msg)), quote(T::Atom(sig))]));
+    let prog = if rng.chance(1, 3) { call(4, vec![prog, quote(int(7))]) } else { prog };
+    (prog, T::nil())
+}
+
 /// programs that allocate ≥ 1 KiB of garbage inside GC-candidate operator calls
 fn garbage_program(rng: &mut Rng) -> (T, T) {
     let blen = 600 + rng.below(600) as usize;
@@ -93,7 +168,15 @@ pub fn oracle(name: &str, rng: &mut Rng, n: usize, tier: &str) -> OracleReport {
     let mut seen = std::collections::HashSet::new();
     for i in 0..n {
         #[allow(unused_mut)]
-        let (mut prog, env) = if name == "gc" && i % 2 == 0 { garbage_program(rng) } else { random_program(rng, 30, name != "runtime") };
+        let (mut prog, env) = if name == "gc" && i % 2 == 0 {
+            garbage_program(rng)
+        } else if name == "repr" && i % 4 == 1 {
+            bls_point_program(rng)
+        } else if name == "hide" && i % 5 == 1 {
+            secp4_program(rng)
+        } else {
+            random_program(rng, 30, name != "runtime")
+        };
         if rng.chance(1, 6) {
             prog = progs::mutate(rng, &prog);
         }
@@ -169,11 +252,7 @@ pub fn oracle(name: &str, rng: &mut Rng, n: usize, tier: &str) -> OracleReport {
                     if a.res != b.res {
                         rep.fail("gc_outcome", format!("{} nogc={:?} gc={:?}", desc(&prog, &env, f), a.res, b.res));
                     } else if a.counts != b.counts {
-                        let known = a.counts.0 == b.counts.0 && a.counts.1 == b.counts.1;
-                        rep.fail(
-                            "gc_counts",
-                            format!("{}{} counts nogc={:?} gc={:?}", if known { "KNOWN-C-substr-inline-noncanonical " } else { "" }, desc(&prog, &env, f), a.counts, b.counts),
-                        );
+                        rep.fail("gc_counts", format!("{} counts nogc={:?} gc={:?}", desc(&prog, &env, f), a.counts, b.counts));
                     }
                 }
             }
@@ -346,6 +425,15 @@ fn run_with_history(rng: &mut Rng, flags: u32, prog: &T, env: &T) -> Result<(u64
         let e = trees::build(&mut a, &e).unwrap();
         let _ = run_program(&mut a, &ChiaDialect::new(f), p, e, if rng.chance(1, 2) { 0 } else { 200 });
     }
+    // earlier runs of the program itself (complete, cut short by the budget, under other flags) and of
+    // a mutation of it: whatever they leave behind (validated-point cache, heap contents) must not matter
+    for k in 0..rng.below(4) {
+        let q = if k == 2 { progs::mutate(rng, prog) } else { prog.clone() };
+        let p = trees::build(&mut a, &q).unwrap();
+        let e = trees::build(&mut a, env).unwrap();
+        let fl = if k == 1 { ClvmFlags::from_bits_truncate(random_flags(rng)) } else { f };
+        let _ = std::panic::catch_unwind(std::panic::AssertUnwindSafe(|| run_program(&mut a, &ChiaDialect::new(fl), p, e, if k == 3 { 500 } else { 0 })));
+    }
     let mut it = "".chars();
     let p = crate::run::build_tagged(&mut a, prog, &mut it);
     let e = crate::run::build_tagged(&mut a, env, &mut it);
@@ -485,6 +573,15 @@ fn unused(_: EvalErr) {}
 /// C06 at the operand-size limits: every request of the `op_limits` stream, turned into the program
 /// `(op (q . a0) (q . a1) …)`, evaluated with and without MALACHITE (the other flags as generated)
 pub fn oracle_malachite_limits(rng: &mut Rng, n: usize, tier: &str) -> OracleReport {
+    oracle_limits("malachite", rng, n, tier)
+}
+
+/// C30 at the operand-size limits: the same programs under ChiaDialect and RuntimeDialect
+pub fn oracle_runtime_limits(rng: &mut Rng, n: usize, tier: &str) -> OracleReport {
+    oracle_limits("runtime", rng, n, tier)
+}
+
+fn oracle_limits(kind: &str, rng: &mut Rng, n: usize, tier: &str) -> OracleReport {
     let mut rep = OracleReport::default();
     let lines = progs::generate_op_limits(rng, n, tier);
     for (i, l) in lines.iter().enumerate() {
@@ -503,17 +600,63 @@ pub fn oracle_malachite_limits(rng: &mut Rng, n: usize, tier: &str) -> OracleRep
         }
         let prog = call(opcode, items);
         let env = atom(&[]);
-        let a = run_full("chia", flags, 0, &prog, &env, "");
-        let b = run_full("chia", flags | MALACHITE, 0, &prog, &env, "");
+        let (a, b) = if kind == "runtime" {
+            let fl = flags & !(ENABLE_GC | DISABLE_OP);
+            let fl = if i % 2 == 0 { fl } else { fl | MALACHITE };
+            (run_full("chia", fl, 0, &prog, &env, ""), run_full("runtime", fl, 0, &prog, &env, ""))
+        } else {
+            (run_full("chia", flags, 0, &prog, &env, ""), run_full("chia", flags | MALACHITE, 0, &prog, &env, ""))
+        };
         rep.evaluations += 1;
         rep.nontrivial += 1;
         rep.hit(match &a.res { Ok(_) => "ok", Err((k, _)) => k.as_str() });
         if i < 2 {
             rep.sample(desc(&prog, &env, flags));
         }
-        if a != b {
-            rep.fail("malachite_limits", format!("{} without={:?} with={:?}", desc(&prog, &env, flags), a, b));
+        let same = if kind == "runtime" {
+            match (&a.res, &b.res) {
+                (Ok(x), Ok(y)) => x == y,
+                (Err((k1, _)), Err((k2, _))) => k1 == k2,
+                _ => false,
+            }
+        } else {
+            a == b
+        };
+        if !same {
+            rep.fail(&format!("{}_limits", kind), format!("{} first={:?} second={:?}", desc(&prog, &env, flags), a, b));
         }
     }
     rep
+}
+
+/// C23 stream: the Chialisp tree-hash program and the native operator on the same random trees, both
+/// cost models, unlimited / exact / one-short budgets
+pub fn generate_run_sha256tree(rng: &mut Rng, n: usize) -> Vec<String> {
+    let prog = trees::from_hex(SHA256TREE_PROG).unwrap();
+    let mut out = vec![];
+    let mut id = 0;
+    for i in 0..n {
+        let t = match i {
+            0 => T::nil(),
+            1 => T::Atom(vec![1]),
+            2 => T::pair(T::nil(), T::nil()),
+            _ => trees::random_tree(rng, 12, 60),
+        };
+        for flags in [0x400u32, 0x400 | NEW_COST_MODEL, 0] {
+            let native = call(63, vec![quote(t.clone())]);
+            for (p, e) in [(&prog, &t), (&native, &T::nil())] {
+                let o = run_full("chia", flags, 0, p, e, "");
+                let mut budgets = vec![0u64];
+                if let Ok((c, _)) = o.res {
+                    budgets.push(c);
+                    budgets.push(c - 1);
+                }
+                for b in budgets {
+                    out.push(format!("RUN t{} chia {:x} {} - {} {}", id, flags, b, trees::to_hex(p), trees::to_hex(e)));
+                    id += 1;
+                }
+            }
+        }
+    }
+    out
 }
